@@ -189,7 +189,7 @@ if __name__ == "__main__":
     root = os.path.dirname(os.path.dirname(os.path.abspath(__file__)))
     sys.path.insert(0, root)
     import verif
-    b = verif.build_harness()
+    b = verif.build_harness(payload["property_workload"])
     ops = "".join(l + "\n" for l in payload["ops"]).encode()
     res = {}
     for name, env in MODES:
